@@ -153,6 +153,11 @@ func init() {
 		Decides:    "the lock protocol that closes the lost-wake-up window of `await` (the AWAIT instruction tests `settled` under the promise's mutex and hands the held mutex to the worker, which registers the continuation before releasing it; the continuation list is only touched under that mutex; every settlement enqueues the continuations exactly once), and the blocking sends on the pool's own bounded task queue that are reachable from a worker or performed under a promise's mutex - each of the latter is a way for the runtime to deadlock and is reported.",
 		NotCovered: "absence of deadlock and lost wake-ups over all interleavings and queue capacities: that is a model-checking question. The five blocking sends of await/queue-blocking are open known findings (one mechanism, F5).",
 	}
+	props["C22"] = &PropSpec{
+		Rules:      []string{"date/year-packing", "fmt/rw"},
+		Decides:    "two shape conditions: every place that packs a computed year into a Date checks it against the representable range first (the packing itself silently wraps), and every format directive the Date / Time / DateTime formatters can write has an arm in the matching parser. Both have open findings on the pinned tree (three unchecked packing sites; the nine Unix-epoch directives of DateTime).",
+		NotCovered: "agreement of the arithmetic with the proleptic Gregorian calendar, a + (b - a) == b, and the values produced by parsing: they depend on date values and on Go's time package.",
+	}
 	props["C23"] = &PropSpec{
 		Rules:      []string{"range/kind-matrix", "native/argrep", "cover/reset"},
 		Decides:    "three agreement conditions of the range and iterator code: for each of the eight range kinds, is_left_closed / is_right_closed answer what the containment test's comparison with Start / End implies; the native ==, contains and friends of ranges (and of every other class) read their `any` argument only through checked accessors; every iterator's Reset re-derives the state its constructor derived from the collection.",
